@@ -33,7 +33,8 @@ import (
 type ShadowCase struct {
 	Kind   string   `json:"kind"` // "shadow"
 	Tag    string   `json:"tag"`
-	Decl   []string `json:"decl"`   // per chain class (K0 = root): "" | pub | prot | priv
+	Decl   []string `json:"decl"`   // per class (K0 = root): "" | pub | prot | priv
+	Par    []int    `json:"par,omitempty"` // round 7: parent index per class (-1 = root, par[i] < i); absent = the linear chain
 	Member string   `json:"member"` // prop | meth | smeth
 	Cell   string   `json:"cell,omitempty"`
 }
@@ -82,9 +83,46 @@ func (c shCell) key() string {
 }
 
 type shFix struct {
-	cs ShadowCase
-	n  int
+	cs  ShadowCase
+	n   int
+	par []int // parent index per class, -1 = no parent
 }
+
+func newShFix(cs ShadowCase) *shFix {
+	f := &shFix{cs: cs, n: len(cs.Decl)}
+	f.par = make([]int, f.n)
+	for i := range f.par {
+		f.par[i] = i - 1
+		if i < len(cs.Par) && cs.Par[i] < i {
+			f.par[i] = cs.Par[i]
+		}
+	}
+	return f
+}
+
+func (f *shFix) isChain() bool {
+	for i, p := range f.par {
+		if p != i-1 {
+			return false
+		}
+	}
+	return true
+}
+
+// anc: a is b or an ancestor of b (both classes of the tree)
+func (f *shFix) anc(a, b int) bool {
+	if a < 0 || a >= f.n || b < 0 || b >= f.n {
+		return false
+	}
+	for c := b; c >= 0; c = f.par[c] {
+		if c == a {
+			return true
+		}
+	}
+	return false
+}
+
+func (f *shFix) inLine(a, b int) bool { return f.anc(a, b) || f.anc(b, a) }
 
 func (f *shFix) cls(i int) string {
 	if i == f.n {
@@ -95,12 +133,36 @@ func (f *shFix) cls(i int) string {
 
 // nearest: the class at or above r (towards K0) that declares the name, -1 if none
 func (f *shFix) nearest(r int) int {
-	for i := r; i >= 0; i-- {
-		if i < f.n && f.cs.Decl[i] != "" {
+	if r >= f.n {
+		return -1
+	}
+	for i := r; i >= 0; i = f.par[i] {
+		if f.cs.Decl[i] != "" {
 			return i
 		}
 	}
 	return -1
+}
+
+// judged: the class a PROTECTED member found in d is judged by (PHP 8.0, the version origami reports).
+// Methods: the class of the method's prototype (zend_get_function_root_class) — from d upwards through the
+// next declaring ancestor as long as that declaration is not private (a private method is not a prototype:
+// the redeclaration starts a new member). Properties: the class of the nearest declaration itself
+// (zend_get_property_offset tests property_info->ce, which a redeclaration sets to the redeclaring class;
+// PHP 8.4 moved properties to the prototype rule too).
+func (f *shFix) judged(d int) int {
+	if f.cs.Member == "prop" || f.cs.Decl[d] != "prot" {
+		return d
+	}
+	j := d
+	for j >= 0 && f.par[j] >= 0 {
+		a := f.nearest(f.par[j])
+		if a < 0 || f.cs.Decl[a] == "priv" {
+			break
+		}
+		j = a
+	}
+	return j
 }
 
 // rule: PHP's rule on (scope, declaring class d, modifier)
@@ -111,11 +173,11 @@ func (f *shFix) rule(mod string, scope, d int) bool {
 	case "priv":
 		return scope == d
 	}
-	return scope >= 0 && scope < f.n // a linear chain: every class of it is an ancestor or a descendant of d
+	return f.inLine(scope, f.judged(d)) // the scope class is the judged class, inherits it or is inherited by it
 }
 
 func (f *shFix) shadowAllowed(scope, r int) bool {
-	if scope >= 0 && scope < f.n && scope <= r && f.cs.Decl[scope] == "priv" {
+	if f.anc(scope, r) && f.cs.Decl[scope] == "priv" {
 		return true
 	}
 	d := f.nearest(r)
@@ -130,31 +192,54 @@ func (f *shFix) rel(scope, d int) string {
 		return "unrelated"
 	case scope == d:
 		return "same"
-	case scope > d:
+	case f.anc(d, scope):
 		return "descendant"
+	case f.anc(scope, d):
+		return "ancestor"
 	}
-	return "ancestor"
+	return "sibling" // a class of the tree that is neither above nor below d
 }
 
 // validPHP: a redeclaration never reduces the visibility of a non-private member of an ancestor
 func shValid(decl []string) bool {
+	par := make([]int, len(decl))
+	for i := range par {
+		par[i] = i - 1
+	}
+	return shValidTree(par, decl)
+}
+
+// the same on a tree: every declaration against the nearest declaration above it
+func shValidTree(par []int, decl []string) bool {
 	rank := map[string]int{"priv": 0, "prot": 1, "pub": 2}
-	last := ""
 	any := false
-	for _, d := range decl {
+	for i, d := range decl {
 		if d == "" {
 			continue
 		}
 		any = true
-		if last != "" && last != "priv" && rank[d] < rank[last] {
-			return false
+		for a := par[i]; a >= 0; a = par[a] {
+			if decl[a] != "" {
+				if decl[a] != "priv" && rank[d] < rank[decl[a]] {
+					return false
+				}
+				break
+			}
 		}
-		last = d
 	}
 	return any
 }
 
 func shDecls(n int) [][]string {
+	par := make([]int, n)
+	for i := range par {
+		par[i] = i - 1
+	}
+	return shDeclsTree(par)
+}
+
+func shDeclsTree(par []int) [][]string {
+	n := len(par)
 	opts := []string{"", "pub", "prot", "priv"}
 	var out [][]string
 	total := 1
@@ -168,7 +253,7 @@ func shDecls(n int) [][]string {
 			d[i] = opts[x%4]
 			x /= 4
 		}
-		if shValid(d) {
+		if shValidTree(par, d) {
 			out = append(out, d)
 		}
 	}
@@ -201,7 +286,7 @@ func (f *shFix) cells() []shCell {
 				}
 				for _, k := range kinds {
 					out = append(out, shCell{Scope: scope, Kind: k, Recv: "o", R: r, Path: p})
-					if scope >= 0 && scope < f.n && scope <= r && p.Name != "unsetIdx" {
+					if f.anc(scope, r) && p.Name != "unsetIdx" {
 						// code of class `scope` running on an object of class r (inherited method): `$this`
 						out = append(out, shCell{Scope: scope, Kind: k, Recv: "this", R: r, Path: p})
 					}
@@ -248,8 +333,8 @@ func (f *shFix) script(cells []shCell) string {
 	}
 	for i := 0; i <= f.n; i++ {
 		ext := ""
-		if i > 0 && i < f.n {
-			ext = " extends " + f.cls(i-1)
+		if i < f.n && f.par[i] >= 0 {
+			ext = " extends " + f.cls(f.par[i])
 		}
 		fmt.Fprintf(&sb, "class %s%s {\n", f.cls(i), ext)
 		if i < f.n && f.cs.Decl[i] != "" {
@@ -291,8 +376,8 @@ func (f *shFix) modelLine(c shCell) string {
 	var hs, ds []string
 	for i := 0; i <= f.n; i++ {
 		e := "-"
-		if i > 0 && i < f.n {
-			e = strconv.Itoa(i)
+		if i < f.n && f.par[i] >= 0 {
+			e = strconv.Itoa(f.par[i] + 1)
 		}
 		hs = append(hs, fmt.Sprintf("%d,%s,-", i+1, e))
 		if i < f.n && f.cs.Decl[i] != "" {
@@ -307,7 +392,7 @@ func (f *shFix) modelLine(c shCell) string {
 }
 
 func runShadowFixture(c *vh.Ctx, m *vh.Model, cs ShadowCase) {
-	f := &shFix{cs: cs, n: len(cs.Decl)}
+	f := newShFix(cs)
 	cells := f.cells()
 	if cs.Cell != "" {
 		var sel []shCell
@@ -369,10 +454,18 @@ func runShadowFixture(c *vh.Ctx, m *vh.Model, cs ShadowCase) {
 			pathName += "/closure"
 		}
 		shadowing := x.Scope >= 0 && x.Scope < f.n && f.cs.Decl[x.Scope] != "" && x.Scope != d
-		c.Eval(fmt.Sprintf("shadow/%s/%v/%s", cs.Member, cs.Decl, x.key()), mod != "pub")
+		c.Eval(fmt.Sprintf("shadow/%s/%v%v/%s", cs.Member, cs.Par, cs.Decl, x.key()), mod != "pub")
 		c.Hit("shadow:member:" + cs.Member)
 		c.Hit("shadow:path:" + pathName)
-		c.Hit(fmt.Sprintf("shadow:chain:%d", f.n))
+		if f.isChain() {
+			c.Hit(fmt.Sprintf("shadow:chain:%d", f.n))
+		} else {
+			c.Hit(fmt.Sprintf("shadow:tree:%v", f.par))
+			c.Hit("shadow:tree-rel:" + rel)
+			if mod == "prot" && f.judged(d) != d {
+				c.Hit("shadow:tree:prototype-above-nearest:" + rel)
+			}
+		}
 		if shadowing {
 			c.Hit("shadow:scope-declares-too:" + rel)
 		}
@@ -458,6 +551,13 @@ func shCounter(st string) int {
 	return n
 }
 
+var shTrees = [][]int{
+	{-1, 0, 0},       // K0 <- K1, K0 <- K2
+	{-1, 0, 0, 1},    // one branch extended
+	{-1, 0, 1, 1},    // a fork below a chain
+	{-1, 0, 0, 1, 2}, // both branches extended
+}
+
 // runShadow: chains of 2 and 3 classes completely; chains of 4 classes completely in the thorough tier, a seeded
 // sample in quick.
 func runShadow(c *vh.Ctx, m *vh.Model, tag string, only *ShadowCase) {
@@ -466,6 +566,31 @@ func runShadow(c *vh.Ctx, m *vh.Model, tag string, only *ShadowCase) {
 		return
 	}
 	k := 0
+	// round 7: small TREES — a root with two branches, the branches extended, a fork below a chain — so that
+	// scope and receiver can be SIBLINGS under an ancestor that declares the name too. Three classes completely;
+	// the larger shapes completely in the thorough tier, a seeded sample in quick.
+	for si, par := range shTrees {
+		decls := shDeclsTree(par)
+		for _, member := range []string{"prop", "meth", "smeth"} {
+			pick := map[int]bool{}
+			if si > 0 {
+				want := c.N(6, len(decls))
+				if si == len(shTrees)-1 {
+					want = c.N(4, 60)
+				}
+				for len(pick) < want {
+					pick[c.Rand.Intn(len(decls))] = true
+				}
+			}
+			for i, d := range decls {
+				if si > 0 && !pick[i] {
+					continue
+				}
+				k++
+				runShadowFixture(c, m, ShadowCase{Kind: "shadow", Tag: fmt.Sprintf("%st%d", tag, k), Decl: d, Par: par, Member: member})
+			}
+		}
+	}
 	for n := 2; n <= 4; n++ {
 		decls := shDecls(n)
 		for _, member := range []string{"prop", "meth", "smeth"} {
